@@ -341,7 +341,13 @@ structure Cfg where
   depth2d : Sel
   /-- `(1.0 * spatial_unit).to(map_unit).magnitude` -/
   scale : Rat
+  /-- the depth reduction of every binned row (a layer's own `operation`, three rows for a vector layer); rows beyond
+      the list take the call-level `op` -/
+  rowOps : List Op := []
   deriving Repr, Inhabited
+
+/-- `operations[layer]`: the layer's own operation, else the one passed to the call -/
+def Cfg.opOf (cfg : Cfg) (l : Nat) : Op := cfg.rowOps.getD l cfg.op
 
 def Cfg.thick (cfg : Cfg) : Bool := cfg.dz.isSome
 /-- `dy = dx if dy is None` -/
@@ -489,6 +495,8 @@ structure Result where
   mask : List Bool
   /-- (7) -/
   unitPower : Nat
+  /-- (7) per binned row: only the rows reduced by sum / nansum are multiplied by the depth step -/
+  unitPowers : List Nat := []
   deriving Repr, Inhabited
 
 /-- `map(..., plot=False)` with the cells processed in the order `order` (indices into the selected
@@ -511,7 +519,7 @@ def run (cfg : Cfg) (mesh : List Cell) (order : Option (List Nat)) (useArr : Boo
       let evs := ordered.flatMap (writes g nl)
       let mem := if useArr then execArr (nl * g.nz * g.ny * g.nx) evs else exec (initMem g nl) evs
       let pix (l : Nat) : List Val :=
-        (List.range g.ny).flatMap fun j => (List.range g.nx).map fun i => reducedPixel g cfg.thick cfg.op mem l j i
+        (List.range g.ny).flatMap fun j => (List.range g.nx).map fun i => reducedPixel g cfg.thick (cfg.opOf l) mem l j i
       let binned := (List.range nl).map pix
       let mask : List Bool := match binned.getLast? with
         | some last => last.map Option.isNone
@@ -519,7 +527,8 @@ def run (cfg : Cfg) (mesh : List Cell) (order : Option (List Nat)) (useArr : Boo
       .ok { grid := g, nsel := sel.length,
             x := (List.range g.nx).map fun i => g.xc i * cfg.scale,
             y := (List.range g.ny).map fun j => g.yc j * cfg.scale,
-            binned := binned, mask := mask, unitPower := unitLengthPower cfg.thick cfg.op }
+            binned := binned, mask := mask, unitPower := unitLengthPower cfg.thick cfg.op,
+            unitPowers := (List.range nl).map fun l => unitLengthPower cfg.thick (cfg.opOf l) }
 
 /-! ### Spec at the level of a whole map -/
 
